@@ -293,3 +293,10 @@ CHECKS["C08"]["text"] += (" The reader of the installed file is under contract a
                           "the decoded first frame and read_record yields the decoded frames behind it in order, up to the first zero length / incomplete frame; a fault-free, fully decodable image is read to its end. "
                           "Unit raftdata ASSUMES exactly the clause text that unit snapshot PROVES (compared on every run).")
 CHECKS["C01"]["text"] += (" The snapshot file reader (unit snapshot: SnapshotReader::{init, get_header, read_record}) is under contract for every chunking of the file; the start-up chain assumes exactly the clause text proved there.")
+
+CHECKS["C05"]["text"] += (" Third build round: the actor level is real text now (T20): RaftIndexManager::{write_index, write_last_applied_log} with their wait chains lambda-lifted, the six setters, load_index_info and "
+                          "Handler<RaftIndexRequest>::handle are verified against the FILE — every save message ends, before the next message is taken, with memory and file holding exactly the saved value behind the "
+                          "untouched other half (no I/O fault), touching nothing it does not name; LoadIndexInfo answers what was saved last.")
+CHECKS["C05"]["note"] += (" Third build round: A-WAIT is now the scheduling assumption of T20 (the waited future and its map closure run before the next message; the handler's Ok precedes the write in real time — crash window, C04), "
+                          "no longer a hand-written model; A-VECWRITE (quick_protobuf Writer over a Vec cannot fail), A-RECORDSIZE (index records fit a 32-bit length), do_notify_membership (T7).")
+CHECKS["C04"]["text"] += " Third build round: the two index-file writers have an always-on BOUNDED crash-image stand-in behind their proof (a save driven one poll at a time, the file copied after every poll, 44 images, each reopened with the real init; seed C04-3)."
